@@ -135,27 +135,33 @@ Definition passes_fs (ff : option N) (fs : list N) : bool :=
 Lemma passes_passes_fs ff n : passes ff n = passes_fs ff (n_files n).
 Proof. destruct ff; reflexivity. Qed.
 
+(* o is listed as a sub-element by an element of the walk *)
+Definition Listed (w : world) (oids : list id) (o : id) : Prop :=
+  exists p pn, In p oids /\ w_nodes w p = Some pn /\ In (CElem o) (n_content pn).
+
 Lemma IsoP_IsoF w w' fm ff ff' oids :
-  (forall o on, In o oids -> w_nodes w o = Some on ->
+  (forall o on, Listed w oids o -> w_nodes w o = Some on ->
      passes_fs ff (n_files on) = passes_fs ff' (translate_files w fm (n_files on))) ->
   (forall s c, IsoP (fun o c => In o oids /\ w_nodes w' o = w_nodes w o /\ MemRel w w' fm o c) w w s c ->
                IsoF w' w' ff ff' s c) /\
   (forall l l', IsoPItems (fun o c => In o oids /\ w_nodes w' o = w_nodes w o /\ MemRel w w' fm o c) w w l l' ->
-                IsoFItems w' w' ff ff' l l').
+                (forall o, In (CElem o) l -> Listed w oids o) -> IsoFItems w' w' ff ff' l l').
 Proof.
   intros HT. apply IsoP_mutind.
   - intros s c ns nc Hs Hc E1 E2 E3 E4 (Hin & Hso & (on & cn & A & B & C)) _ IH.
     rewrite Hs in A. injection A as <-. rewrite Hc in B. injection B as <-.
     eapply (IF_node w' w' ff ff' s c ns (set_files nc (translate_files w fm (n_files ns)))); auto.
-    rewrite Hso. exact Hs.
-  - constructor.
-  - intros d r r' _ IH. constructor. exact IH.
-  - intros s c r r' HP IH1 _ IH2.
+    + rewrite Hso. exact Hs.
+    + cbn [n_content set_files]. apply IH. intros o Ho. exists s, ns. auto.
+  - intros _. constructor.
+  - intros d r r' _ IH HL. constructor. apply IH. intros o Ho. apply HL. right. exact Ho.
+  - intros s c r r' HP IH1 _ IH2 HL.
     inversion HP as [s0 c0 ns nc Hs Hc _ _ _ _ (Hin & Hso & (on & cn & A & B & C)) _]; subst s0 c0.
     rewrite Hs in A. injection A as <-. rewrite Hc in B. injection B as <-.
     eapply (IFI_elem w' w' ff ff' s c ns (set_files nc (translate_files w fm (n_files ns)))); auto.
     + rewrite Hso. exact Hs.
-    + rewrite !passes_passes_fs. cbn [n_files set_files]. eapply HT; eauto.
+    + rewrite !passes_passes_fs. cbn [n_files set_files]. eapply HT; eauto. apply HL. left. reflexivity.
+    + apply IH2. intros o Ho. apply HL. right. exact Ho.
 Qed.
 
 Lemma Forall2_imp {A B} (P Q : A -> B -> Prop) l l' : (forall a b, P a b -> Q a b) -> Forall2 P l l' -> Forall2 Q l l'.
@@ -174,7 +180,7 @@ Theorem membership_phase fm fuel root croot oids cids w w' ff ff' :
   dfs_ids fuel root w = Val (OK oids, w) -> dfs_ids fuel croot w = Val (OK cids, w) ->
   NoDup cids -> (forall o c, In o oids -> In c cids -> o <> c) ->
   dup_membership fm oids cids w = Val (OK tt, w') ->
-  (forall o on, In o oids -> w_nodes w o = Some on ->
+  (forall o on, Listed w oids o -> w_nodes w o = Some on ->
      passes_fs ff (n_files on) = passes_fs ff' (translate_files w fm (n_files on))) ->
   IsoF w' w' ff ff' root croot.
 Proof.
@@ -240,7 +246,8 @@ Theorem duplicate_tail_text fm root croot w4 r w' f nf :
   (forall l, dfs_ids (fuel_of w4) croot w4 = Val (OK l, w4) -> NoDup l) ->
   (do w <- wget; do oids <- dfs_ids (fuel_of w) root; do cids <- dfs_ids (fuel_of w) croot;
    dup_membership fm oids cids)%W w4 = Val (OK r, w') ->
-  (forall o on, Sub w4 root o -> w_nodes w4 o = Some on -> MapsAlike w4 fm f nf (n_files on)) ->
+  (forall p pn o on, Sub w4 root p -> w_nodes w4 p = Some pn -> In (CElem o) (n_content pn) -> w_nodes w4 o = Some on ->
+     MapsAlike w4 fm f nf (n_files on)) ->
   forall fuel indent inline,
     ser_heap T tab_el tab_at tab_en float_fmt fuel w' (Some f) root indent inline =
     ser_heap T tab_el tab_at tab_en float_fmt fuel w' (Some nf) croot indent inline.
@@ -254,6 +261,7 @@ Proof.
   destruct r. apply iso_text.
   eapply (membership_phase fm (fuel_of w4) root croot oids cids w4 w'); eauto.
   - intros o c Ho Hc. apply Hdis; [exact (dfs_ids_Sub _ _ _ _ _ Eo _ eq_refl _ Ho)|exact (dfs_ids_Sub _ _ _ _ _ Ec _ eq_refl _ Hc)].
-  - intros o on Ho Hon. apply translate_ok. apply (HM o on); [exact (dfs_ids_Sub _ _ _ _ _ Eo _ eq_refl _ Ho)|exact Hon].
+  - intros o on (p & pn & Hp & Hpn & Hin) Hon. apply translate_ok.
+    apply (HM p pn o on); [exact (dfs_ids_Sub _ _ _ _ _ Eo _ eq_refl _ Hp)|exact Hpn|exact Hin|exact Hon].
 Qed.
 End Tail.
